@@ -19,19 +19,19 @@ Lemma agree_fixed_spec_cfg c : t_barrier c = false -> t_iscfg c = true -> agree 
 Proof.
   intros Hbar Hk. unfold agree, spec_ok, agree_cfg, spec_cfg. rewrite Hbar, Hk.
   pose proof (outcome_fixed_all (t_c c)) as G. unfold good_out in G.
+  rewrite (racy_fixed (t_c c)). cbn [orb].
   destruct (run_job jfixed (t_c c)) as [a al r t]. cbn [o_accepted o_alive o_result o_ticket] in *.
   intros H. apply andb_true_iff in H. destruct H as [Ho H]. rewrite Ho. cbn [andb].
-  repeat (apply andb_true_iff in H; destruct H as [H ?]).
-  apply Bool.eqb_prop in H. subst a.
+  apply andb_true_iff in H. destruct H as [Hacc H].
+  apply andb_true_iff in H. destruct H as [H Hlast]. apply andb_true_iff in H. destruct H as [Hlive Hst].
+  apply Bool.eqb_prop in Hacc. subst a.
   destruct (ob_accepted c); [|reflexivity]. cbn [negb orb] in *.
   apply andb_true_iff in G. destruct G as [G Ht]. apply andb_true_iff in G. destruct G as [Hal Hr].
   subst al t.
-  match goal with Hs : Bool.eqb true (ob_live c =? 0) = true |- _ => apply Bool.eqb_prop in Hs; rewrite <- Hs end.
-  match goal with Hs : (_ && Bool.eqb true (ob_ticket c)) = true |- _ =>
-    apply andb_true_iff in Hs; destruct Hs as [Hres Htk]; apply Bool.eqb_prop in Htk; rewrite <- Htk end.
-  apply Z.eqb_eq in Hres.
-  match goal with Hs : (res_code r =? ob_stored c) = true |- _ => apply Z.eqb_eq in Hs; rewrite <- Hs end.
-  rewrite <- Hres. destruct r as [[]|]; [reflexivity..|discriminate].
+  apply Bool.eqb_prop in Hlive. rewrite <- Hlive.
+  apply andb_true_iff in Hlast. destruct Hlast as [Hres Htk]. apply Bool.eqb_prop in Htk. rewrite <- Htk.
+  apply Z.eqb_eq in Hres. apply Z.eqb_eq in Hst. rewrite <- Hst, <- Hres.
+  destruct r as [[]|]; [reflexivity..|discriminate].
 Qed.
 
 Lemma agree_fixed_spec_raffle v c :
